@@ -1,0 +1,34 @@
+//! Verification hook (compiled only with `--cfg paseto_rs_verif`): lets a test harness force the
+//! 16-byte AES-CTR counter block at the sites where it is derived from a KDF / hash output, so that the
+//! behaviour of the cipher when the counter's low word wraps can be observed on real tokens.
+//! With the cfg off nothing here exists.
+use core::sync::atomic::{AtomicBool, AtomicU64, Ordering};
+
+use generic_array::GenericArray;
+use generic_array::typenum::U16;
+
+static FORCE: AtomicBool = AtomicBool::new(false);
+static HI: AtomicU64 = AtomicU64::new(0);
+static LO: AtomicU64 = AtomicU64::new(0);
+
+/// `Some(block)`: every derived counter block is replaced by `block`; `None`: normal behaviour.
+pub fn force_iv(block: Option<[u8; 16]>) {
+    match block {
+        Some(b) => {
+            HI.store(u64::from_be_bytes(b[..8].try_into().unwrap()), Ordering::SeqCst);
+            LO.store(u64::from_be_bytes(b[8..].try_into().unwrap()), Ordering::SeqCst);
+            FORCE.store(true, Ordering::SeqCst);
+        }
+        None => FORCE.store(false, Ordering::SeqCst),
+    }
+}
+
+pub(crate) fn iv(n2: GenericArray<u8, U16>) -> GenericArray<u8, U16> {
+    if !FORCE.load(Ordering::SeqCst) {
+        return n2;
+    }
+    let mut out = GenericArray::<u8, U16>::default();
+    out[..8].copy_from_slice(&HI.load(Ordering::SeqCst).to_be_bytes());
+    out[8..].copy_from_slice(&LO.load(Ordering::SeqCst).to_be_bytes());
+    out
+}
